@@ -2,7 +2,11 @@ module verifharness
 
 go 1.21
 
-require github.com/linuxboot/fiano v0.0.0
+require (
+	github.com/linuxboot/fiano v0.0.0
+	github.com/tjfoc/gmsm v1.4.1
+	github.com/ulikunitz/xz v0.5.11
+)
 
 require (
 	github.com/dustin/go-humanize v1.0.0 // indirect
@@ -12,8 +16,6 @@ require (
 	github.com/mattn/go-runewidth v0.0.13 // indirect
 	github.com/pierrec/lz4 v2.6.1+incompatible // indirect
 	github.com/rivo/uniseg v0.2.0 // indirect
-	github.com/tjfoc/gmsm v1.4.1 // indirect
-	github.com/ulikunitz/xz v0.5.11 // indirect
 	github.com/xaionaro-go/bytesextra v0.0.0-20220103144954-846e454ddea9 // indirect
 	golang.org/x/text v0.6.0 // indirect
 )
